@@ -20,7 +20,7 @@ Local Open Scope Z_scope.
 (* ---------------------------------------------------------------------------------------------- *)
 (* tactics                                                                                          *)
 (* ---------------------------------------------------------------------------------------------- *)
-Ltac munfold := unfold bind, ret, lift, fail, raise, unbound, instantiate, eph_call, frac_ltb, terminal_ratio.
+Ltac munfold := unfold bind, ret, lift, fail, raise, unbound, instantiate, eph_call, frac_ltb, terminal_ratio, res_map, len, zlen.
 
 (* the scrutinee a term inspects first *)
 Ltac match_head t kyes kno :=
@@ -34,6 +34,16 @@ Ltac destruct_head t :=
   match_head t
     ltac:(fun x => head_scrut x ltac:(fun y => first [ is_var y; destruct y | let E := fresh "E" in destruct y eqn:E ]))
     ltac:(fun _ => fail).
+(* the term inspects, first of all, a pure value (a flag, an optional, a list): such case distinctions are made
+   before the next monadic step of the other side is examined, so that both sides stay in step *)
+Ltac pure_head t :=
+  match_head t
+    ltac:(fun x => head_scrut x ltac:(fun y =>
+            let T := type of y in
+            lazymatch T with bool => idtac | option _ => idtac | list _ => idtac | emode => idtac | _ => fail end))
+    ltac:(fun _ => fail).
+Ltac step_heads l r :=
+  first [ pure_head r; destruct_head r | pure_head l; destruct_head l | destruct_head l | destruct_head r ].
 Ltac use_eqns :=
   repeat match goal with
          | E : ?x = _ |- context [match ?x with _ => _ end] => rewrite E
@@ -44,7 +54,7 @@ Ltac mcrush :=
   munfold;
   repeat (cbv beta iota zeta; cbn [fst snd]; use_eqns;
           lazymatch goal with
-          | |- ?l = ?r => first [ destruct_head l | destruct_head r ]
+          | |- ?l = ?r => step_heads l r
           end);
   cbv beta iota zeta; try mleaf.
 
@@ -133,7 +143,7 @@ Ltac mcrush' :=
   munfold;
   repeat (cbv beta iota zeta; cbn [fst snd]; use_eqns; try progress idioms; munfold; cbv beta iota zeta; cbn [fst snd];
           lazymatch goal with
-          | |- ?l = ?r => first [ destruct_head l | destruct_head r ]
+          | |- ?l = ?r => step_heads l r
           end);
   cbv beta iota zeta; try progress idioms; munfold; cbv beta iota zeta; cbn [fst snd]; try mleaf.
 
@@ -262,4 +272,127 @@ Proof.
   unfold bind at 1. rewrite d_choice_map. unfold bind, ret.
   destruct (d_choice [GGrow; GFull] ds) as [[m ds1]|]; [|reflexivity].
   destruct m; [ rewrite gen_genFull_eq | rewrite gen_genGrow_eq ]; reflexivity.
+Qed.
+
+(* ---------------------------------------------------------------------------------------------- *)
+(* the tree methods at natural-number positions (what the operators call them with)                   *)
+(* ---------------------------------------------------------------------------------------------- *)
+Lemma gen_search_nat l i ds :
+  gen_searchSubtree l (Z.of_nat i) ds = lift (res_map zslice (search_subtree l i)) ds.
+Proof.
+  rewrite gen_searchSubtree_eq. unfold m_searchSubtree, search_subtree_py.
+  replace (Z.of_nat i <? 0) with false by lia. cbv iota.
+  replace (Z.of_nat i <? 0) with false by lia. now rewrite Nat2Z.id.
+Qed.
+
+Lemma gen_setslice_nat l b e v ds : gen_setitem_slice l (zslice (b, e)) v ds = lift (set_slice l b e v) ds.
+Proof.
+  rewrite gen_setitem_slice_eq by (unfold zslice; cbn [fst snd]; lia).
+  unfold m_setitem_slice, zslice. cbn [fst snd]. now rewrite !Nat2Z.id.
+Qed.
+
+Lemma gen_setitem_nat l i v ds : gen_setitem_item l (Z.of_nat i) v ds = lift (set_item l i v) ds.
+Proof.
+  rewrite gen_setitem_item_eq. unfold m_setitem_item, set_item_py, zlen. cbv zeta.
+  replace (Z.of_nat i <? 0) with false by lia. cbv iota.
+  replace (Z.of_nat i <? 0) with false by lia. cbn [orb]. rewrite Nat2Z.id.
+  destruct (Z.of_nat (length l) <=? Z.of_nat i) eqn:E; [|reflexivity].
+  unfold set_item. replace (nth_error l i) with (@None node); [reflexivity|].
+  symmetry. apply nth_error_None. lia.
+Qed.
+
+(* a drawn index i with 0 <= i: written Z.of_nat (Z.to_nat i) *)
+Ltac nat_index zi H :=
+  let i := fresh "i" in
+  set (i := Z.to_nat zi) in *; replace zi with (Z.of_nat i) in * by (subst i; lia).
+Ltac draw_bounds :=
+  repeat match goal with
+         | E : d_randrange ?lo ?hi ?ds = Ok (?z, ?d) |- _ =>
+             is_var z; let H := fresh "Hz" in
+             pose proof (d_randrange_ok _ _ _ _ _ E) as [H _]; clear E; try nat_index z H
+         end.
+
+(* case analysis with the calls of translated functions rewritten to the model first *)
+Ltac mrew :=
+  rewrite ?gen_search_nat, ?gen_setslice_nat, ?gen_setitem_nat, ?getitem_nat, ?gen_height_eq, ?gen_root_eq.
+Ltac mcrush_with rew :=
+  munfold;
+  repeat (cbv beta iota zeta; cbn [fst snd]; use_eqns;
+          repeat match goal with p : (_ * _)%type |- _ => destruct p end;
+          draw_bounds;
+          try progress mrew; try progress idioms; try progress rew;
+          unfold m_height, m_root; munfold; cbv beta iota zeta; cbn [fst snd];
+          lazymatch goal with
+          | |- ?l = ?r => step_heads l r
+          end; try solve [ exfalso; lia ]);
+  repeat match goal with p : (_ * _)%type |- _ => destruct p end;
+  cbv beta iota zeta; try progress idioms; munfold; cbv beta iota zeta; cbn [fst snd]; try mleaf.
+Ltac mcrush2 := mcrush_with idtac.
+
+(* ---------------------------------------------------------------------------------------------- *)
+(* mutNodeReplacement                                                                                *)
+(* ---------------------------------------------------------------------------------------------- *)
+Lemma gen_mutNodeReplacement_eq l ps ds : gen_mutNodeReplacement l ps ds = m_mutNodeReplacement l ps ds.
+Proof.
+  first [ reflexivity | idtac ].
+  unfold gen_mutNodeReplacement, m_mutNodeReplacement, mut_node_replacement.
+  mcrush2.
+Qed.
+
+(* ---------------------------------------------------------------------------------------------- *)
+(* mutUniform                                                                                        *)
+(* ---------------------------------------------------------------------------------------------- *)
+Lemma gen_mutUniform_eq l expr ps ds : gen_mutUniform l expr ps ds = m_mutUniform l expr ps ds.
+Proof.
+  first [ reflexivity | idtac ].
+  unfold gen_mutUniform, m_mutUniform. rewrite len_nat. unfold zlen.
+  apply bind_cong_ok. intros zi ds1 E. apply d_randrange_ok in E. destruct E as [Hz _].
+  nat_index zi Hz.
+  mcrush2.
+Qed.
+
+(* ---------------------------------------------------------------------------------------------- *)
+(* mutEphemeral                                                                                      *)
+(* ---------------------------------------------------------------------------------------------- *)
+Ltac use_for_eph :=
+  repeat match goal with
+         | |- context [for_each [Z.of_nat ?x] ?b] => change [Z.of_nat x] with (map Z.of_nat [x])
+         end;
+  lazymatch goal with
+  | |- context [for_each (map Z.of_nat ?idxs) ?b ?l ?ds] => rewrite (for_eph b); [ | intros; mcrush2 ]
+  end.
+
+Lemma gen_mutEphemeral_eq l mode ds : gen_mutEphemeral l mode ds = m_mutEphemeral l mode ds.
+Proof.
+  first [ reflexivity | idtac ].
+  unfold gen_mutEphemeral, m_mutEphemeral, mut_ephemeral.
+  destruct mode; cbn [existsb mode_eqb orb negb]; [ | | reflexivity ]; cbv zeta;
+    rewrite enumerate_from_0; erewrite idx_filter by (intros; reflexivity); cbv beta;
+    set (idxs := map fst (filter (fun q => neph (snd q)) (enumerate l)));
+    (destruct idxs as [|i0 r0]; [reflexivity|]);
+    unfold len; cbn [map length]; rewrite Nat2Z.inj_succ;
+    (replace (0 <? Z.succ (Z.of_nat (length (map Z.of_nat r0)))) with true by lia);
+    change (Z.of_nat i0 :: map Z.of_nat r0) with (map Z.of_nat (i0 :: r0));
+    mcrush_with ltac:(rewrite ?d_choice_map; try use_for_eph).
+Qed.
+
+(* ---------------------------------------------------------------------------------------------- *)
+(* staticLimit                                                                                       *)
+(* ---------------------------------------------------------------------------------------------- *)
+Lemma gen_staticLimit_eq key maxv func args ds :
+  gen_staticLimit key maxv func args ds = m_staticLimit key maxv func args ds.
+Proof.
+  first [ reflexivity | idtac ].
+  unfold gen_staticLimit, m_staticLimit. cbv zeta.
+  apply bind_cong_ok. intros outs ds1 _.
+  rewrite enumerate_from_0. unfold enumerate.
+  lazymatch goal with
+  | |- bind (for_each _ ?b outs) _ ds1 = _ =>
+      pose proof (for_limit key maxv args b) as W;
+      lazymatch type of W with
+      | ?P -> _ => assert (Hb : P) by (intros; mcrush2); specialize (W Hb outs [] ds1); clear Hb
+      end
+  end.
+  cbn [length app] in W. unfold bind in W |- *. rewrite W.
+  destruct (limit_fold_k key maxv args outs ds1) as [[r ds2]|]; reflexivity.
 Qed.
